@@ -95,8 +95,13 @@ class Inst:
         return self.ret.startswith('Except ')
 
     @property
+    def heaped(self):
+        """'Heap T': the instance creates / mutates objects — it takes the heap and returns (heap, T)"""
+        return self.ret.startswith('Heap ')
+
+    @property
     def value_type(self):
-        return self.ret[len('Except '):] if self.raises else self.ret
+        return self.ret[len('Except '):] if self.raises else self.ret[len('Heap '):] if self.heaped else self.ret
 
     def key(self):
         return (self.qual, tuple(t for _n, t in self.params[1:])) if self.params and self.params[0][0] == 'self' \
@@ -110,6 +115,8 @@ LEAN_TYPE = {'Dt': 'Int', 'Td': 'Int', 'Int': 'Int', 'Bool': 'Bool', 'TI': 'GV.T
 def lean_type(t):
     if t.startswith('Except '):
         return 'Except String ' + _paren(lean_type(t[7:]))
+    if t.startswith('Heap '):
+        return LEAN_TYPE['HeapT'] + ' × ' + _paren(lean_type(t[5:]))
     if t.startswith('Prod '):
         return ' × '.join(_paren(lean_type(p)) for p in _prod_parts(t))
     if t.startswith('List '):
@@ -223,6 +230,7 @@ class Unit:
         tr = FnTr(self, inst, fn)
         body = tr.function_body()
         binders = ' '.join([f'({n} : {t})' for n, t in self.ctx_params] +
+                           ([f'(heap_0 : {LEAN_TYPE["HeapT"]})'] if inst.heaped else []) +
                            [f'({lname(n)} : {lean_type(t)})' for n, t in inst.params if t != 'None'])
         shown = ast.parse(ast.unparse(fn)).body[0]
         if (shown.body and isinstance(shown.body[0], ast.Expr) and isinstance(getattr(shown.body[0], 'value', None), ast.Constant)
@@ -257,6 +265,7 @@ class FnTr:
         self.on_fall = None      # inside a loop body: what "falling off the end" means (next iteration)
         self.aux = []            # auxiliary recursive definitions (loops), emitted before the function
         self.fields = {}         # __init__: attribute -> Val
+        self.heap = 'heap_0' if inst.heaped else None      # Lean text of the current heap (instances declared 'Heap T')
         for n, t in inst.params:
             self.env[n] = Val(lname(n), t, path=n)
         if fn.args.kwarg is not None:
@@ -283,6 +292,7 @@ class FnTr:
         c = FnTr.__new__(FnTr)
         c.u, c.inst, c.fn = self.u, self.inst, self.fn
         c.env, c.narrow, c.fields = dict(self.env), dict(self.narrow), dict(self.fields)
+        c.heap = self.heap
         c.fresh = self.fresh
         c.pending = []
         c.on_fall = self.on_fall
@@ -292,6 +302,9 @@ class FnTr:
     def wrap(self, text):
         """bind the raising calls met while translating the expression(s) `text` reads, in evaluation order"""
         for name, call in reversed(self.pending):
+            if name.startswith('%let '):            # a heap step: `let r := <(heap', value)>`
+                text = f'let {name[5:]} := {call}\n{text}'
+                continue
             text = f'match {call} with\n| Except.error e => Except.error e\n| Except.ok {name} =>\n{_indent(text)}'
         self.pending = []
         return text
@@ -302,6 +315,8 @@ class FnTr:
 
     # ---- results ---------------------------------------------------------------------------------------
     def ok(self, text):
+        if self.heap is not None:
+            return f'({self.heap}, {text})'
         return f'Except.ok {_paren(text)}' if self.inst.raises else text
 
     def err(self, exc):
@@ -598,7 +613,10 @@ class FnTr:
                     raise Unsupported(f'`{self.inst.qual}`: unpacking into `{ast.unparse(t)}`')
                 self.env[t.id] = Val(pr, et, path=t.id)
                 self.narrow.pop(t.id, None)
-            return self.wrap(f'let {tmp} := {v.text}\n' + self.block(rest))
+            pend, self.pending = self.pending, []
+            inner = self.block(rest)
+            self.pending = pend
+            return self.wrap(f'let {tmp} := {v.text}\n' + inner)
         if isinstance(tgt, ast.Tuple):
             if not isinstance(value, ast.Tuple) or len(value.elts) != len(tgt.elts):
                 raise Unsupported(f'`{self.inst.qual}`: tuple assignment from a non-tuple')
@@ -626,6 +644,7 @@ class FnTr:
                 nm = self.gensym(lname(t.id))
                 if self.pending:
                     self.env[t.id] = Val(nm, v.typ, path=t.id)
+                    self.env[t.id].fresh = getattr(v, 'fresh', False)
                     self.narrow.pop(t.id, None)
                     pend, self.pending = self.pending, []
                     inner = self.block(rest) if (t, v) == pairs[-1] else None
@@ -635,6 +654,7 @@ class FnTr:
                     return '\n'.join(lets + [self.wrap(f'let {nm} := {v.text}\n{inner}')])
                 lets.append(f'let {nm} := {v.text}')
                 self.env[t.id] = Val(nm, v.typ, path=t.id)
+                self.env[t.id].fresh = getattr(v, 'fresh', False)
                 self.narrow.pop(t.id, None)
             elif isinstance(t, ast.Attribute) and isinstance(t.value, ast.Name) and t.value.id == 'self' \
                     and self.inst.qual.endswith('.__init__'):
@@ -656,6 +676,8 @@ class FnTr:
         xs = self.expr(s.iter)
         if not xs.typ.startswith('List '):
             raise Unsupported(f'`{self.inst.qual}`: loop over {xs.typ}')
+        if self.heap is not None:
+            return self.for_store(s, rest, xs)
         pair = isinstance(s.target, ast.Tuple) and len(s.target.elts) == 2 and all(isinstance(t, ast.Name) for t in s.target.elts) \
             and len(_prod_parts(xs.typ[5:])) == 2
         if (isinstance(s.target, ast.Name) or pair) and len(s.body) == 1 and isinstance(s.body[0], ast.If) and not s.body[0].orelse and len(s.body[0].body) == 1 \
@@ -679,6 +701,43 @@ class FnTr:
             self.pending = pend
             return self.wrap(f'if ({xs.text}).any (fun {x} => {c}) then {self.ok("true" if k else "false")} else\n{_indent(after)}')
         return self.for_general(s, rest, xs)
+
+    def for_store(self, s, rest, xs):
+        """`for x in xs: x.f = e; x.g = e'` in an instance that works on the heap: every element is replaced by the updated
+        record.  Only over a local list of *fresh* objects (built by this function from calls declared to return new
+        objects): a store through a list whose elements may be shared is outside the subset."""
+        ok = (isinstance(s.target, ast.Name) and isinstance(s.iter, ast.Name) and s.iter.id in self.env and s.body
+              and all(isinstance(b, ast.Assign) and len(b.targets) == 1 and isinstance(b.targets[0], ast.Attribute)
+                      and isinstance(b.targets[0].value, ast.Name) and b.targets[0].value.id == s.target.id for b in s.body))
+        if not ok:
+            raise Unsupported(f'`{self.inst.qual}`: loop `{ast.unparse(s)[:60]}` in an instance that works on the heap')
+        if not getattr(self.env[s.iter.id], 'fresh', False):
+            raise Unsupported(f'`{self.inst.qual}`: attribute stores through `{s.iter.id}`, whose elements may be shared objects')
+        elem = xs.typ[5:]
+        stores = self.u.hooks.get('stores', {})
+        hh, x = self.gensym('heap'), self.gensym(lname(s.target.id))
+        inner = self.sub()
+        inner.fresh = self.fresh
+        inner.heap = hh
+        cur = x
+        for b in s.body:
+            inner.env[s.target.id] = Val(cur, elem, path=None)
+            v = inner.expr(b.value)
+            field = stores.get((elem, b.targets[0].attr))
+            if not field or field[1] != v.typ:
+                raise Unsupported(f'`{self.inst.qual}`: store `{ast.unparse(b)}` of {v.typ} into {elem}')
+            cur = f'{{ {cur} with {field[0]} := {v.text} }}'
+        if any(not n.startswith('%let ') for n, _c in inner.pending):
+            raise Unsupported(f'`{self.inst.qual}`: a call that may raise inside a storing loop')
+        body = inner.wrap(f'({inner.heap}, {cur})')
+        self.fresh = inner.fresh
+        nm = self.gensym('hr')
+        call = f'GV.Py.mapH (fun {hh} {x} =>\n{_indent(body, 4)}) {self.heap} {xs.text}'
+        self.heap = f'{nm}.1'
+        new = Val(f'{nm}.2', xs.typ, path=s.iter.id)
+        new.fresh = True
+        self.env[s.iter.id] = new
+        return f'let {nm} := {call}\n' + self.block(rest)
 
     def while_stmt(self, s, rest):
         """`while c: body` (assignments only) as a *fuelled* recursion: an auxiliary definition over a `Nat` fuel and the
@@ -994,6 +1053,8 @@ class FnTr:
             vals = [self.expr(v) for v in e.elts]
             if len(vals) == 2 and vals[0].typ == vals[1].typ:
                 return Val(f'({vals[0].text}, {vals[1].text})', 'Pair ' + vals[0].typ)
+            if len(vals) > 2 and all(v.typ == vals[0].typ for v in vals):
+                return Val('(' + ', '.join(v.text for v in vals) + ')', f'Tuple{len(vals)} {vals[0].typ}')
             raise Unsupported(f'tuple `{ast.unparse(e)}`')
         if isinstance(e, ast.List) and not e.elts:
             return Val('[]', 'List ?')
@@ -1177,6 +1238,13 @@ class FnTr:
                         return Val(f'(if Num.lt {_paren(b.text)} {_paren(a.text)} then {b.text} else {a.text})', 'N')
                     return Val(f'(if Num.lt {_paren(a.text)} {_paren(b.text)} then {b.text} else {a.text})', 'N')
                 raise Unsupported(f'{f.id} of {a.typ}, {b.typ}')
+            if f.id in ('min', 'max') and len(e.args) == 1 and not e.keywords:
+                v = self.expr(e.args[0])
+                if v.typ == 'List R':
+                    r = Val(f'(GV.Py.{f.id}L {v.text})', 'R')       # the first extremal element; ValueError on an empty sequence
+                    r.raises = True
+                    return r
+                raise Unsupported(f'{f.id}() of {v.typ}')
             if f.id == 'zip' and len(e.args) == 2:
                 a, b = self.expr(e.args[0]), self.expr(e.args[1])
                 if a.typ.startswith('List ') and b.typ.startswith('List '):
@@ -1227,6 +1295,10 @@ class FnTr:
                     and e.args[0].func.id == 'zip' and len(e.args[0].args) == 1 and isinstance(e.args[0].args[0], ast.Starred):
                 v = self.expr(e.args[0].args[0].value)          # `list(zip(*pairs))`: the two columns
                 parts = _prod_parts(v.typ[5:]) if v.typ.startswith('List Prod ') else []
+                if v.typ.startswith('List Tuple4 '):
+                    r = Val(f'(GV.Py.unzip4 {v.text})', 'Tuple4 List ' + v.typ.split(' ', 2)[2])
+                    r.raises = True                              # unpacking the columns of an empty list: ValueError
+                    return r
                 if len(parts) != 2:
                     raise Unsupported(f'zip(*…) of {v.typ}')
                 r = Val(f'(GV.Py.unzip2 {v.text})', f'Prod {_paren("List " + parts[0])} {_paren("List " + parts[1])}')
@@ -1277,6 +1349,16 @@ class FnTr:
                 return Val(recv.text, recv.typ)           # a list is a value here
             args = [self.expr(a) for a in e.args]
             ab = self.u.abstract.get((recv.typ, f.attr, tuple(a.typ for a in args)))
+            if ab and ab[1].startswith('Heap '):
+                # a call that creates an object: `(heap', value)`; the value is a *fresh* object
+                if self.heap is None:
+                    raise Unsupported(f'`{self.inst.qual}`: `.{f.attr}()` creates an object, but the instance is not declared to work on the heap')
+                nm = self.gensym('hr')
+                self.pending.append(('%let ' + nm, ab[0].format(*[_paren(x.text) for x in [recv] + args], h=self.heap)))
+                self.heap = f'{nm}.1'
+                r = Val(f'{nm}.2', ab[1][5:])
+                r.fresh = True
+                return r
             if ab:
                 tmpl, typ = ab
                 return Val('(' + tmpl.format(*[_paren(x.text) for x in [recv] + args]) + ')', typ)
@@ -1355,9 +1437,23 @@ class FnTr:
                 inner.env[t.id] = Val(f'{x}.{i + 1}', parts[i], path=t.id)
         else:
             inner.env[tgt.id] = Val(x, xs.typ[5:], path=tgt.id)
+        hh = None
+        if self.heap is not None:
+            hh = inner.gensym('heap')
+            inner.heap = hh
         v = inner.expr(e.elt, allow_raise=True)
-        if inner.pending or getattr(v, 'raises', False):
+        if any(not n.startswith('%let ') for n, _c in inner.pending) or getattr(v, 'raises', False):
             raise Unsupported(f'`{self.inst.qual}`: a call that may raise inside `{ast.unparse(e)[:60]}`')
+        if inner.pending:
+            # the element expression creates objects: the heap is threaded through the list, left to right
+            body = inner.wrap(f'({inner.heap}, {v.text})')
+            self.fresh = inner.fresh
+            nm = self.gensym('hr')
+            self.pending.append(('%let ' + nm, f'GV.Py.mapH (fun {hh} {x} =>\n{_indent(body, 4)}) {self.heap} {xs.text}'))
+            self.heap = f'{nm}.1'
+            r = Val(f'{nm}.2', 'List ' + v.typ)
+            r.fresh = getattr(v, 'fresh', False)
+            return r
         self.fresh = inner.fresh
         return Val(f'(({xs.text}).map (fun {x} => {v.text}))', 'List ' + v.typ)
 
